@@ -3,13 +3,14 @@
 (*   Case    {id, mode, sep, lab[], X[][]}   training labels (and the integer feature data in mode "exact") *)
 (*   Labels  {start, nclass, counts[]}       LDAMODEL.class_start, .nclass, rows of .features per class    *)
 (*   Prior   {k, num, den, err}              pprob[k] * den rounded to an integer; err = |pprob*den - num| *)
-(*   PriorSum{num, den, err}                 (sum of pprob) * den                                          *)
+(*   PriorSum{num, den, err, count}          (sum of pprob) * den; count = length of pprob                 *)
 (*   Mu      {k, j, num, den, err}           mu[k][j] * den rounded (mode exact: TLC recomputes the rational)*)
 (*   MuL     {k, err}                        ledger: max relative deviation of mu[k][.] from the class average *)
 (*   Pred    {i, label, truth, fin, sc[][3]} prediction[i] and the STORED probability row as order codes   *)
 (*   Disc    {err}                           stored score vs mu' C x - mu' C mu / 2 + ln(prior), max relative *)
-(*   EndPred {n}                             all n test objects were reported                             *)
-(*   Pair    {kind, err, same}               affine / perm: score-difference deviation, predictions equal *)
+(*   EndPred {n, rows}                       n test objects were submitted, prediction has `rows` rows       *)
+(*   Pair    {kind, err, same, kf}           affine / perm: score-difference deviation, predictions equal; *)
+(*                                           kf = Frobenius condition number of the covariance LDA() inverts *)
 (*   Auc     {k, err}   AucEnd{count}        |AUC_k - 1| from LDAMulticlassStatistics on perfect predictions *)
 (* residuals are saturating integers in units of 1e-12.  A Crash event (emitted by the parent when the     *)
 (* child running the library died) matches no action and is therefore always rejected.                    *)
@@ -18,11 +19,14 @@ EXTENDS Lda, TraceBase
 CONSTANTS PropOnly,
           TolExact,     \* 1e-12 units: stored exact rationals (priors, means, AUC)      1000  = 1e-9
           TolAlg,       \* 1e-12 units: algebraic identities in double precision         10000 = 1e-8
-          TolPair       \* 1e-12 units: invariance of score differences                  100000 = 1e-7
+          TolPair,      \* 1e-12 units: invariance of score differences                  100000 = 1e-7
+          PairPerKf,    \* 1e-12 units per unit condition number: the bound grows with the conditioning of the
+                        \* matrix LDA() has to invert (accuracy of the inversion itself is C12's subject)  10000 = 1e-8
+          KfMax         \* beyond this condition number the covariance is numerically singular: outside the quantifier
 VARIABLES l, st
 tvars == <<lab, X, l, st>>
 Ev == Tr[l]
-St0 == [mode |-> "none", sep |-> 0, errs |-> 0, npred |-> 0, nprior |-> 0, nauc |-> 0]
+St0 == [mode |-> "none", sep |-> 0, errs |-> 0, nauc |-> 0]
 
 LexLe(a, b) == \/ a[1] < b[1]
                \/ a[1] = b[1] /\ (a[2] < b[2] \/ (a[2] = b[2] /\ a[3] <= b[3]))
@@ -48,13 +52,13 @@ TLabels == /\ l <= Len(Tr) /\ Ev.e = "Labels" /\ Step /\ Same
            /\ \A k \in 1..Len(Ev.counts) : Ev.counts[k] = Count(lab, k - 1)
 
 \* priors = class frequencies (exact rational recomputed by TLC from the labels)
-TPrior == /\ l <= Len(Tr) /\ Ev.e = "Prior" /\ Step /\ UNCHANGED <<lab, X>>
+TPrior == /\ l <= Len(Tr) /\ Ev.e = "Prior" /\ Step /\ Same
           /\ Ev.k \in Rows(lab)
           /\ Ev.err <= TolExact
           /\ REq(<<Ev.num, Ev.den>>, Prior(lab, Ev.k))
-          /\ st' = [st EXCEPT !.nprior = @ + 1]
 TPriorSum == /\ l <= Len(Tr) /\ Ev.e = "PriorSum" /\ Step /\ Same
              /\ Ev.err <= TolExact /\ Ev.num = Ev.den
+             /\ Ev.count = NClass(lab)
 
 \* class means = per-class averages (mode exact: rational recomputed by TLC from labels and integer data)
 TMu == /\ l <= Len(Tr) /\ Ev.e = "Mu" /\ Step /\ Same
@@ -74,7 +78,7 @@ PropPred(ev) == /\ ev.fin = 1
 ImplPred(ev) == PropOnly \/ RowOf(lab, ev.label) + 1 = MinS(ArgmaxSet(ev.sc))     \* first maximiser wins
 TPred == /\ l <= Len(Tr) /\ Ev.e = "Pred" /\ Step /\ UNCHANGED <<lab, X>>
          /\ PropPred(Ev) /\ ImplPred(Ev)
-         /\ st' = [st EXCEPT !.npred = @ + 1, !.errs = @ + (IF Ev.label = Ev.truth THEN 0 ELSE 1)]
+         /\ st' = [st EXCEPT !.errs = @ + (IF Ev.label = Ev.truth THEN 0 ELSE 1)]
 
 \* the stored score is the documented discriminant of the stored model
 TDisc == /\ l <= Len(Tr) /\ Ev.e = "Disc" /\ Step /\ Same
@@ -82,14 +86,14 @@ TDisc == /\ l <= Len(Tr) /\ Ev.e = "Disc" /\ Step /\ Same
 
 \* every test object was predicted; well separated classes are classified without error
 TEndPred == /\ l <= Len(Tr) /\ Ev.e = "EndPred" /\ Step /\ Same
-            /\ st.npred = Ev.n
-            /\ st.nprior = NClass(lab)
+            /\ Ev.rows = Ev.n
             /\ (st.sep = 1 => st.errs = 0)
 
 \* invariance under affine re-coding of train and test, and under reordering of the training objects
 TPair == /\ l <= Len(Tr) /\ Ev.e = "Pair" /\ Step /\ Same
          /\ Ev.kind \in {"affine", "perm"}
-         /\ Ev.err <= TolPair
+         /\ Ev.kf <= KfMax                   \* numerically singular cases are dropped (and counted) by the check
+         /\ (Ev.err <= TolPair \/ Ev.err <= PairPerKf * Ev.kf)
          /\ Ev.same = 1
 
 \* per-class ROC on perfect 0-based predictions
